@@ -13,7 +13,7 @@ LEVEL_TEXT = ("Differential testing of a filtered decoder against an unfiltered 
               "F[i] == U[i] if permitted(U[i]) else nothing, compared on full content including the attached source identity.")
 TECHNIQUE = "differential testing filtered vs unfiltered decoder over generated configurations x histories (Hypothesis)"
 RULE = ("configuration {none, exclude, include} with 0..5 entries drawn from the traffic's PGN numbers / definition ids (original, lower, "
-        "upper, swapped case), absent numbers/ids, 60928 / isoAddressClaim, duplicates x histories of 4..14 messages (frames interleaved, sibling definitions and sibling twins of multi-definition PGNs); "
+        "upper, swapped case), absent numbers/ids, 60928 / isoAddressClaim, duplicates x histories of 4..14 messages (frames interleaved, sibling definitions and sibling twins of multi-definition PGNs), wide histories with 3..2100 (thorough 66000) streams of filtered-out fast-packet traffic pending while a permitted message is assembled; "
         "oracle per position; non-trivial = configuration with >= 2 entries or an id entry or mixed kinds on a history where at least one "
         "message is dropped and one kept; distinct = (configuration, history)")
 ASSUMPTIONS = [
@@ -177,14 +177,79 @@ def _twins(ctx: Ctx, item):
     ctx.klass("systematic_twin_cases", n)
 
 
+WIDE_FILLERS = ["126996/productInformation", "127489/engineParametersDynamic", "128275/distanceLog", "129540/gnssSatsInView",
+                "127506/dcDetailedStatus", "129285/navigationRouteWpInformation", "130577/directionData", "129038/aisClassAPositionReport",
+                "129809/aisClassBStaticDataMsg24PartA"]
+
+
+def wide_items(width):
+    """A permitted fast-packet message whose frames straddle `width` first frames of other fast PGNs (each on its own stream, never
+    completed), then a second permitted message and a single frame."""
+    from .. import gen, wire
+    db = canboat.db()
+    main = db.by_key["129029/gnssPositionData"]
+    mp, mn, _ = gen.benign_payload(main)
+    mf = wire.segment(mp.to_bytes(mn, "little"), 3)
+    items = [{"kind": "fastframe", "pgn": main.pgn, "src": 1, "dest": 255, "data": mf[0], "msg": 0, "frame": 0}]
+    fill = []
+    for k in WIDE_FILLERS:
+        d = db.by_key[k]
+        p, n, _ = gen.benign_payload(d)
+        fill.append((d, wire.segment(p.to_bytes(n, "little"), 1)[0]))
+    for i in range(width):
+        d, fr = fill[i % len(fill)]
+        items.append({"kind": "fastframe", "pgn": d.pgn, "src": 2 + (i // len(fill)) % 250, "dest": 255, "data": fr, "msg": 1 + i, "frame": 0})
+    items += [{"kind": "fastframe", "pgn": main.pgn, "src": 1, "dest": 255, "data": fr, "msg": 0, "frame": i} for i, fr in enumerate(mf) if i]
+    mf2 = wire.segment(mp.to_bytes(mn, "little"), 4)
+    items += [{"kind": "fastframe", "pgn": main.pgn, "src": 1, "dest": 255, "data": fr, "msg": width + 1, "frame": i} for i, fr in enumerate(mf2)]
+    vh = db.by_key["127250/vesselHeading"]
+    p, n, _ = gen.benign_payload(vh)
+    items.append({"kind": "single", "pgn": 127250, "src": 1, "dest": 255, "data": p.to_bytes(n, "little")[:8], "msg": width + 2})
+    return items
+
+
+def wide_configs():
+    db = canboat.db()
+    nums = [db.by_key[k].pgn for k in WIDE_FILLERS]
+    ids = [db.by_key[k].id for k in WIDE_FILLERS]
+    return [("exclude", nums), ("exclude", ids), ("include", [129029, "vesselheading"]), ("include", ["gnssPositionData", 127250]),
+            ("exclude", nums[:4] + ids[4:])]
+
+
+def _wide(ctx: Ctx, item):
+    """Many streams of filtered-out fast-packet traffic pending at once (a decoder's reassembly state is per stream): the permitted
+    message that straddles them must come out of the filtered and the unfiltered decoder alike."""
+    width, ci = item
+    mode, entries = wide_configs()[ci]
+    items = wide_items(width)
+    ctx.count()
+    ctx.nt(("wide", width, ci))
+    ctx.klass("wide_history")
+    ctx.klass(f"wide_width_{width}")
+    res, dropped, kept = run_case(mode, entries, items)
+    if kept < 3:
+        ctx.report("C10|wide|unfiltered-lost", f"width {width}: the unfiltered decoder returned {kept} of the 3 permitted messages", {"wide": width, "config": ci})
+    for b, w, c in res:
+        ctx.report(b + "|wide", w + f" (history of {width} pending filtered-out streams)", {"wide": width, "config": ci})
+
+
 def run(ctx: Ctx):
     db0 = canboat.db()
+    widths = [3, 60, 300, 1030, 2100] if ctx.quick else [3, 60, 300, 1030, 2100, 4200, 9000, 20000, 66000]
+    pmap(ctx, _wide, [(w, ci) for w in widths for ci in range(len(wide_configs()))])
     pmap(ctx, _twins, [(p,) for p, ds in db0.by_pgn.items() if len(ds) > 1])
     n = 150 if ctx.quick else 6000
     pmap(ctx, _work, [(n,)] * 16)
 
 
 def replay(ctx: Ctx, case):
+    if "wide" in case:
+        mode, entries = wide_configs()[case["config"]]
+        res, _, kept = run_case(mode, entries, wide_items(case["wide"]))
+        out = [(b + "|wide", w, case) for b, w, c in res]
+        if kept < 3:
+            out.append(("C10|wide|unfiltered-lost", "the unfiltered decoder lost a permitted message", case))
+        return out
     res, _, _ = run_case(case["mode"], case["entries"], [traffic.item_from_json(i) for i in case["items"]])
     res2, _, _ = run_case(case["mode"], case["entries"], [traffic.item_from_json(i) for i in case["items"]], True)
     out = res + [r for r in res2 if r[0] not in {x[0] for x in res}]
